@@ -189,3 +189,68 @@ func reorgStorm(r *ev.Run, caseID string) {
 }
 
 var _ = ev.Spec{}
+
+// deepStorm: one reorganisation over exactly `depth` heights (the sizes at which relabelling statements get batched)
+// while readers ask for the tip; afterwards the table is one chain, labelled as the model says.
+func deepStorm(r *ev.Run, caseID string, depth int) {
+	rng := r.Rand(caseID)
+	st, err := rig.New(rig.Options{Dir: r.Scratch, Name: "c15-deep.db"})
+	if err != nil {
+		r.Violate("harness|rig", err.Error(), caseID, nil)
+		return
+	}
+	defer st.Destroy()
+	m := mb.NewModel()
+	hist := gen.DeepReorg(rng, rig.Genesis(), 2+rng.Intn(3), depth)
+	var stop atomic.Bool
+	var nilTips, reads atomic.Int64
+	var wg sync.WaitGroup
+	for g := 0; g < 4; g++ {
+		wg.Add(1)
+		go func() {
+			defer wg.Done()
+			for !stop.Load() {
+				reads.Add(1)
+				if st.Svc.Headers.GetTip() == nil {
+					nilTips.Add(1)
+				}
+			}
+		}()
+	}
+	diverged := false
+	for _, h := range hist.Hdrs {
+		si := mb.Step(st, m, h)
+		if si.Res.Panic != nil || si.Res.Code() != mb.WantCode(si.Outcome) {
+			diverged = true
+			break
+		}
+	}
+	stop.Store(true)
+	wg.Wait()
+	r.Count("storm_tip_reads", reads.Load())
+	detail := map[string]any{"reorganisation_depth": depth, "tip_reads": reads.Load()}
+	if diverged {
+		r.Count("storms_cut_short_by_ingest_divergence", 1)
+		return
+	}
+	if nilTips.Load() > 0 {
+		r.Violate("storm|reader-told-no-tip", fmt.Sprintf("%d tip reads were answered with no tip during a reorganisation over %d heights", nilTips.Load(), depth), caseID, detail)
+		return
+	}
+	t, err := snap.TakeHeaders(st.DB)
+	if err != nil {
+		r.Violate("harness|snapshot", err.Error(), caseID, nil)
+		return
+	}
+	if bad := t.IChain(); bad != "" {
+		r.Violate("ichain|deep-reorganisation", fmt.Sprintf("after a reorganisation over %d heights: %s", depth, bad), caseID, detail)
+		return
+	}
+	if ds := mb.CompareTable(m, t, true); len(ds) > 0 {
+		r.Violate("labels|deep-reorganisation", fmt.Sprintf("after a reorganisation over %d heights: %s", depth, mb.DescribeDiffs(ds, 4)), caseID, detail)
+		return
+	}
+	r.Count("deep_reorganisations_with_readers", 1)
+	r.Cases(1)
+	r.Distinct(fmt.Sprintf("deep-storm|%d", depth))
+}
